@@ -391,7 +391,7 @@ pub fn mirror_cmd(v: &Value) -> Value {
     let (s2, r2) = crossbeam_channel::unbounded();
     let mut prod = Bdd::with_sender(stage_s);
     let mut relay = Bdd::with_sender_receiver(s2, r1);
-    let mut last = Bdd::with_receiver(r2);
+    let mut last = Some(Bdd::with_receiver(r2));
     let mut handles = Vec::new();
     for st in v["script"].as_array().unwrap() {
         script_step(&mut prod, &mut handles, st, n);
@@ -399,8 +399,14 @@ pub fn mirror_cmd(v: &Value) -> Value {
     let total = prod.nodes.len() - 2;
     let mut forwarded = 0usize;
     let mut polls = Vec::new();
+    let dump_opt = |b: &Option<Bdd>| b.as_ref().map(dump_nodes).unwrap_or(Value::Null);
     for pl in v["polls"].as_array().unwrap() {
         let who = pl["who"].as_str().unwrap();
+        if who == "drop_last" {
+            // the downstream store goes away (its receiver is dropped with it); the relay keeps polling
+            last = None;
+            continue;
+        }
         let cut = if who == "drain" { total } else { us(&pl["cut"]).min(total) };
         while forwarded < cut {
             if let Ok(m) = stage_r.try_recv() {
@@ -410,15 +416,17 @@ pub fn mirror_cmd(v: &Value) -> Value {
         }
         if who == "drain" {
             relay.recv(Term(usize::MAX));
-            last.recv(Term(usize::MAX));
+            if let Some(l) = last.as_mut() {
+                l.recv(Term(usize::MAX));
+            }
             continue;
         }
         let term = Term(us(&pl["term"]));
-        let ret = if who == "relay" { relay.recv(term) } else { last.recv(term) };
-        polls.push(json!({"ret": ret, "relay": dump_nodes(&relay), "last": dump_nodes(&last),
-                          "relay_consumed": relay.nodes.len() - 2, "last_consumed": last.nodes.len() - 2}));
+        let ret = if who == "relay" { relay.recv(term) } else { last.as_mut().map(|l| l.recv(term)).unwrap_or(false) };
+        polls.push(json!({"ret": ret, "relay": dump_nodes(&relay), "last": dump_opt(&last),
+                          "relay_consumed": relay.nodes.len() - 2, "last_consumed": last.as_ref().map(|l| l.nodes.len() - 2).unwrap_or(0)}));
     }
-    json!({"producer": dump_nodes(&prod), "polls": polls, "final_relay": dump_nodes(&relay), "final_last": dump_nodes(&last)})
+    json!({"producer": dump_nodes(&prod), "polls": polls, "final_relay": dump_nodes(&relay), "final_last": dump_opt(&last)})
 }
 #[cfg(not(feature = "frontend"))]
 pub fn mirror_cmd(_v: &Value) -> Value {
